@@ -34,7 +34,10 @@ type lemmaInst struct {
 
 // instantiate binds the lemma parameters to fresh variables with the given suffix.
 func (g *Gen) lemmaVars(l *Lemma, sf *SpecFile, pkg *types.Package, suffix string, v *FnVC) lemmaInst {
-	env := &Env{g: g, pkg: pkg, sf: sf, vars: map[string]Val{}, v: nil}
+	env := &Env{g: g, pkg: pkg, sf: sf, vars: map[string]Val{}, v: v}
+	if v != nil {
+		env.st = v.entry
+	}
 	var bound []*Term
 	for _, p := range l.Params {
 		pt := g.parseType(p.Type, pkg)
@@ -89,7 +92,11 @@ func (v *FnVC) assumeLemma(name string) {
 		}
 		pats = append(pats, p)
 	}
-	v.assume(True, Forall(inst.bound, Implies(req, ens), pats...), "lemma:"+name)
+	if len(inst.bound) == 0 {
+		v.assume(True, Implies(req, ens), "lemma:"+name)
+	} else {
+		v.assume(True, Forall(inst.bound, Implies(req, ens), pats...), "lemma:"+name)
+	}
 	if strings.HasPrefix(l.By, "axiom") {
 		v.g.noteAssumption("axiom " + name + " (" + l.By + ")")
 	}
@@ -101,7 +108,7 @@ func (v *FnVC) assumeLemma(name string) {
 // GenLemma produces the proof obligation(s) of a lemma.
 func (g *Gen) GenLemma(l *Lemma, sf *SpecFile, pkg *types.Package) (vc *FnVC, err error) {
 	v := &FnVC{g: g, spec: &FuncSpec{Opts: map[string]string{}}, sf: sf, declared: map[string]string{}, counters: map[string]int{},
-		heapSorts: map[string]string{}, usedSpecs: map[string]bool{}, pkg: pkg, name: "lemma:" + l.Name}
+		heapSorts: map[string]string{}, usedSpecs: map[string]bool{}, pkg: pkg, name: "lemma:" + l.Name, refHeaps: map[string]bool{}}
 	defer func() {
 		if r := recover(); r != nil {
 			switch e := r.(type) {
@@ -116,6 +123,10 @@ func (g *Gen) GenLemma(l *Lemma, sf *SpecFile, pkg *types.Package) (vc *FnVC, er
 		}
 	}()
 	v.curGuard = True
+	v.entry = &State{vars: map[string]*Term{}, heaps: map[string]*Term{}}
+	v.entry.alloc = v.declare("alloc@0", SInt)
+	v.assume(True, Ge(v.entry.alloc, IntLit(1)), "alloc")
+	v.paramConsts = map[string]bool{}
 	by := strings.Fields(l.By)
 	if len(by) == 0 {
 		by = []string{"smt"}
@@ -162,9 +173,86 @@ func (g *Gen) GenLemma(l *Lemma, sf *SpecFile, pkg *types.Package) (vc *FnVC, er
 		}
 		v.assume(True, Forall(hyp.bound, Implies(And(Le(IntLit(0), m1), Lt(m1, m0), hreq), hens), pats...), "induction-hypothesis")
 	}
+	for _, u := range l.Uses {
+		v.useLemma(inst.env, u, True)
+	}
 	for i, c := range l.Ensures {
 		_ = ens
+		if c.E.Kind == "quant" && c.E.Op == "forall!" {
+			// one obligation per instance, so that a failing table row is named
+			lo, ok1 := inst.env.int(c.E.Lo).IntVal()
+			hi, ok2 := inst.env.int(c.E.Hi).IntVal()
+			if ok1 && ok2 {
+				var deferred []*Term
+				for k := lo.Int64(); k < hi.Int64(); k++ {
+					n := inst.env.child()
+					n.vars[c.E.Var] = intVal(IntLit(k))
+					goal := n.bool(c.E.Args[0])
+					o := v.oblige("lemma", fmt.Sprintf("ensures#%d[%s=%d]", i+1, c.E.Var, k), True, goal, l.Line, c.Text)
+					// instances are independent: do not let one failing row hide behind another
+					v.assumes = v.assumes[:len(v.assumes)-1]
+					_ = o
+					deferred = append(deferred, goal)
+				}
+				for _, g := range deferred {
+					v.assume(True, g, "checked")
+				}
+				continue
+			}
+		}
 		v.oblige("lemma", fmt.Sprintf("ensures#%d", i+1), True, inst.env.bool(c.E), l.Line, c.Text)
 	}
 	return v, nil
+}
+
+// useLemma adds one ground instance of a lemma (explicit instantiation hint).
+func (v *FnVC) useLemma(env *Env, c *Clause, guard *Term) {
+	if c.E.Kind == "quant" && c.E.Op == "forall!" {
+		lo, ok1 := env.int(c.E.Lo).IntVal()
+		hi, ok2 := env.int(c.E.Hi).IntVal()
+		if !ok1 || !ok2 {
+			specErr("%s: forall! in use needs literal bounds", c.Line)
+		}
+		for k := lo.Int64(); k < hi.Int64(); k++ {
+			n := env.child()
+			n.vars[c.E.Var] = intVal(IntLit(k))
+			v.useLemma(n, &Clause{Kind: "use", E: c.E.Args[0], Line: c.Line, Text: c.Text}, guard)
+		}
+		return
+	}
+	if c.E.Kind != "call" {
+		specErr("%s: use needs lemma(args...)", c.Line)
+	}
+	l, sf := v.g.findLemma(v.sf, c.E.Name)
+	if l == nil {
+		specErr("%s: unknown lemma %q", c.Line, c.E.Name)
+	}
+	if len(l.Params) != len(c.E.Args) {
+		specErr("%s: lemma %s takes %d arguments", c.Line, l.Name, len(l.Params))
+	}
+	le := &Env{g: v.g, pkg: v.pkg, sf: sf, vars: map[string]Val{}, v: v, st: env.st}
+	le.old = le
+	for i, p := range l.Params {
+		a := env.eval(c.E.Args[i])
+		pt := v.g.parseType(p.Type, v.pkg)
+		if a.T == nil || a.T.Sort != sortOf(pt) {
+			specErr("%s: argument %d of %s has the wrong sort", c.Line, i+1, l.Name)
+		}
+		a.Typ = pt
+		le.vars[p.Name] = a
+	}
+	var rs, es []*Term
+	for _, r := range l.Requires {
+		rs = append(rs, le.bool(r.E))
+	}
+	for _, e := range l.Ensures {
+		es = append(es, le.bool(e.E))
+	}
+	v.assume(guard, Implies(And(rs...), And(es...)), "use:"+l.Name)
+	if strings.HasPrefix(l.By, "lean") {
+		v.g.noteAssumption("lemma " + l.Name + " proved in Lean (" + l.By + "), checked by the lean step of this run")
+	}
+	if strings.HasPrefix(l.By, "axiom") {
+		v.g.noteAssumption("axiom " + l.Name)
+	}
 }
